@@ -135,6 +135,16 @@ def r16_2(run):
             run.ob("R16.2", loc(f2, c), f2.short, f"{nm}: output-size check dominates window creation", ok,
                    "the integer/positive out_shape test (raising ValueError) dominates the sliding_window_view call" if ok else
                    "windows are created for configurations whose placements do not tile the data")
+        # ... and every value the forward pass returns: no shortcut computes a result for a configuration the check would reject
+        for r in [x for x in own_nodes(f2.node) if isinstance(x, ast.Return) and x.value is not None]:
+            nr = c2.node_for(r)
+            if nr is None or not c2.reachable(nr):
+                continue
+            ok = any(c2.dominates(g, nr) for g in gs)
+            run.ob("R16.2", loc(f2, r), f2.short, f"{nm}: output-size check dominates `return {norm(r.value)[:40]}`", ok,
+                   "the placement check cuts every path to this result" if ok else
+                   "a result is returned on a path that never passes the placement check: configurations in which the windows do not tile the "
+                   "(padded) data are accepted instead of raising")
         # the test rejects fractional and non-positive sizes
         ok = any("is_integer()" in norm(c2.stmt[g]) and "> 0" in norm(c2.stmt[g]) for g in gs)
         run.ob("R16.2", loc(f2, f2.node), f2.short, f"{nm}: size check rejects fractional and non-positive placements counts", ok,
